@@ -5,9 +5,19 @@ use once_cell::sync::OnceCell;
 pub fn init() {
     static INITED: OnceCell<()> = OnceCell::new();
     INITED.get_or_init(|| {
+        #[cfg(expression_engine_verif)]
+        crate::verif_hooks::init_probe(0);
         PrefixOpManager::new().init();
+        #[cfg(expression_engine_verif)]
+        crate::verif_hooks::init_probe(1);
         InfixOpManager::new().init();
+        #[cfg(expression_engine_verif)]
+        crate::verif_hooks::init_probe(2);
         PostfixOpManager::new().init();
+        #[cfg(expression_engine_verif)]
+        crate::verif_hooks::init_probe(3);
         InnerFunctionManager::new().init();
+        #[cfg(expression_engine_verif)]
+        crate::verif_hooks::init_probe(4);
     });
 }
